@@ -613,10 +613,25 @@ def _interval(ctx: Ctx, c: Collector) -> None:
     # weak outside a group is rejected before the interval is built
     raises = [e for e in s.of_kind("raise") if e.term[0] == "call" and e.term[1] == T.glob(SCENERR)]
     okr = False
+    ROOTP = ("attr", common, "parent")
+    none_forms = {("cmp", "is", ROOTP, T.NONE): ("not", ROOTP), ("cmp", "isnot", ROOTP, T.NONE): ROOTP,
+                  ("cmp", "==", ROOTP, T.NONE): ("not", ROOTP), ("cmp", "!=", ROOTP, T.NONE): ROOTP}
     for e in raises:
         gt = guard_terms(e.guards)
-        if gt == [("and", (wk, ("not", ("attr", common, "parent"))))] or set(gt) == {wk, ("not", ("attr", common, "parent"))}:
+        if gt == [("and", (wk, ("not", ROOTP)))] or set(gt) == {wk, ("not", ROOTP)}:
             okr = True
+            continue
+        # by cases: a group's parent is a SimGroup or None, so `parent is None` is `not parent`; the rejection fires exactly
+        # when the connection is weak and the common group has no parent
+        try:
+            from . import tables as _tb
+            from .. import boolfn as _bf
+            gs = tuple(T.replace(g, none_forms) for g in without_asserts(s, e.guards))
+            rows = list(_tb.rows([("rej", gs)], [wk, ROOTP]))
+            if rows and all((("rej" in fired) == (bool(a[wk]) and not a[ROOTP])) for a, fired in rows):
+                okr = True
+        except Exception:
+            pass
     if not okr:
         pr.append("a weak connection whose common group is the root is not rejected with ScenarioError")
     c.add("interval", INTERVAL, "pre_length/cutoff/tiers, shift in tier 0, weak in the shared group's tier, weak needs a shared group", VIOLATED if pr else DISCHARGED, "; ".join(pr), loc)
@@ -712,6 +727,8 @@ def _interval(ctx: Ctx, c: Collector) -> None:
             pr.append("does not return (levels above the source, descent, common group) for the first destination ancestor found in the table")
         if not any(e.kind == "raise" and not e.iters for e in gs.events):
             pr.append("two groups without a common ancestor do not raise")
+    elif not idx_calls and _table_form(ctx, gs, gfi, srcp, destp, rts, parent_chain, climber, pr):
+        pass        # form D: a level table of the source's chain probed by membership / get / subscript (checked in _table_form)
     elif not idx_calls:
         pr.append("the common group is not looked up in the source's ancestor chain")
     else:
@@ -765,6 +782,95 @@ def _interval(ctx: Ctx, c: Collector) -> None:
         if not any(r == "body" for _, r in look.tries) and ("cmp", "in", look.term[2][0], look.term[1][1]) not in guard_terms(look.guards):
             pr.append("a destination group that is not an ancestor of the source ends the search (ValueError not handled)")
     c.add("group_path", GROUP_PATH, "ascent = index of first common ancestor", VIOLATED if pr else DISCHARGED, "; ".join(pr), gfi.loc)
+
+
+def _table_form(ctx, gs, gfi, srcp, destp, rts, parent_chain, climber, pr) -> bool:
+    """Form D of group_path: a table {group: levels above the source} over the source's parent chain (filled while climbing, or a
+    dict comprehension over enumerate(chain)), probed with the destination group and its parents, innermost first (`c in table`,
+    `table.get(c)`, `table[c]`); the result is (table[c], descent, c) for the first candidate found.  Returns False when the function
+    is not of this form at all (nothing is appended to pr then); True when it is, with every deviation appended to pr."""
+    def level_table(t, depth=0):
+        t0 = T.strip(t)
+        if depth > 3:
+            return None
+        if t0[0] == "var":
+            fl = [e for e in gs.of_kind("store") if e.term[1][0] == "idx" and e.term[1][1] == t0 and e.iters]
+            if fl:
+                f = fl[0]
+                empty_init = any(b.term[1] == t0 and T.strip(b.term[2]) == ("dict", ()) and not b.iters for b in gs.of_kind("bind"))
+                counted = f.term[2] == call(T.glob("len"), t0)
+                return "ok" if (empty_init and counted and climber(f.term[1][2], srcp, f)) else "bad"
+            b = [e for e in gs.of_kind("bind") if e.term[1] == t0 and not e.iters]
+            if len(b) == 1:
+                return level_table(b[0].term[2], depth + 1)
+            return None
+        if t0[0] == "bag" and len(t0) > 2 and t0[2] == "dict" and len(t0[1]) == 1:
+            el = t0[1][0]
+            if el[1][0] == "pair" and len(el[3]) == 1:
+                it = el[3][0]
+                src_it = T.strip(it[2])
+                if src_it[0] == "call" and src_it[1] == T.glob("enumerate") and len(src_it[2]) == 1 and it[1][0] == "tuple" and len(it[1][1]) == 2:
+                    av, gv = it[1][1]
+                    ok = el[1][1] == gv and el[1][2] == av and not el[2] and parent_chain(src_it[2][0]) == srcp
+                    return "ok" if ok else "bad"
+            return "bad"
+        return None
+
+    # the result: (table[c] | table.get(c), descent, c)
+    found = None
+    for r in rts:
+        if not (r.term[0] == "tuple" and len(r.term[1]) == 3):
+            continue
+        first = unalias(r.term[1][0], gs, gfi)
+        c = r.term[1][2]
+        tab = None
+        if first[0] == "idx":
+            tab, key = first[1], first[2]
+        elif first[0] == "call" and first[1][0] == "attr" and first[1][2] == "get" and len(first[2]) == 1:
+            tab, key = first[1][1], first[2][0]
+        if tab is None:
+            continue
+        kind = level_table(tab)
+        if kind is None:
+            continue
+        found = (r, first, tab, key, c, kind)
+        break
+    if found is None:
+        return False
+    r, first, tab, key, c, kind = found
+    if kind == "bad":
+        pr.append("the table of ancestors is not filled with the source group and every parent, numbered from 0")
+    if key != c:
+        pr.append(f"the level returned is looked up for {T.show(key)[:40]}, not for the common group {T.show(c)[:40]} that is returned")
+    # membership: the result is returned only for a candidate that is in the table
+    gts = [unalias(x, gs, gfi) for x in guard_terms(r.guards)]
+    getc = call(("attr", tab, "get"), c)
+    tabs = {tab, T.strip(unalias(tab, gs, gfi))}
+    member = any((x[0] == "cmp" and x[1] == "in" and x[2] == c and (x[3] in tabs or T.strip(unalias(x[3], gs, gfi)) in tabs))
+                 or (x[0] == "cmp" and x[1] == "isnot" and x[3] == T.NONE and x[2][0] == "call" and x[2][1][0] == "attr" and x[2][1][2] == "get" and x[2][2] == (c,))
+                 for x in gts)
+    if not member:
+        pr.append("the result is not tied to the candidate being one of the source's ancestors (no membership test guards the return)")
+    # candidates: the destination and its parents, innermost first
+    if c == destp:
+        climbs = [e for e in gs.of_kind("bind") if e.term[1] == destp and e.term[2] == ("attr", destp, "parent")]
+        if not climbs or not any(i[1] == ("while",) for i in climbs[0].iters):
+            pr.append("the destination side never climbs to its parent")
+        else:
+            has_parent = [x for x in guard_terms(climbs[0].guards) if x in (("attr", destp, "parent"), ("cmp", "isnot", ("attr", destp, "parent"), T.NONE))]
+            if not has_parent:
+                pr.append("the destination climbs to its parent although it has none / stops although it has one (guard of the climb is not `dest.parent`)")
+    else:
+        it = r.iters[-1] if r.iters else None
+        src_it = T.strip(it[2]) if it is not None else None
+        loopvar = it[1] if it is not None else None
+        if src_it is not None and src_it[0] == "call" and src_it[1] == T.glob("enumerate") and len(src_it[2]) == 1 and it[1][0] == "tuple" and len(it[1][1]) == 2:
+            loopvar, src_it = it[1][1][1], T.strip(src_it[2][0])
+        if it is None or loopvar != c or parent_chain(src_it) != destp:
+            pr.append("the candidates for the common group are not the destination group and its parents, innermost first")
+    if not any(e.kind == "raise" for e in gs.events):
+        pr.append("two groups without a common ancestor do not raise")
+    return True
 
 
 from ..report import VIOLATED, DISCHARGED  # noqa: E402
